@@ -96,6 +96,7 @@ type Engine struct {
 	collisionFree bool
 	splitBound int
 	decodeMayFail bool
+	exactBE    bool
 	repBounds  map[string][2]int
 	ifaceCands map[string][]types.Type
 	curSite    string
@@ -151,6 +152,9 @@ func (e *Engine) solve(extra []*T, wantModel bool, timeoutMs int, values []*T) (
 	as = append(as, e.axioms...)
 	as = append(as, e.pc...)
 	as = append(as, extra...)
+	if e.collisionFree {
+		as = append(as, collisionAxioms(as)...)
+	}
 	script, names, evs := buildScript(as, values)
 	gv := ""
 	if wantModel {
@@ -1210,6 +1214,8 @@ func (e *Engine) resetPath() {
 	e.permute = false
 	e.pathLabels = nil
 	e.decodeMayFail = false
+	e.exactBE = false
+	e.collisionFree = false
 	e.repBounds = map[string][2]int{}
 	e.ifaceCands = map[string][]types.Type{}
 }
@@ -1283,3 +1289,37 @@ func (e *Engine) encodedFuncs(filter string) []string {
 }
 
 var _ = token.ADD
+
+var hashUFs = map[string]bool{"sha256": true, "keccak256": true}
+
+// collisionAxioms instantiates h(a) = h(b) => a = b on every pair of occurring hash applications (opt-in).
+func collisionAxioms(ts []*T) []*T {
+	var apps []*T
+	seen := map[*T]bool{}
+	var walk func(t *T)
+	walk = func(t *T) {
+		if seen[t] {
+			return
+		}
+		seen[t] = true
+		if t.Op == "uf" && hashUFs[t.Name] {
+			apps = append(apps, t)
+		}
+		for _, a := range t.Args {
+			walk(a)
+		}
+	}
+	for _, t := range ts {
+		walk(t)
+	}
+	var out []*T
+	for i := 0; i < len(apps); i++ {
+		for j := i + 1; j < len(apps); j++ {
+			if apps[i].Name != apps[j].Name || apps[i].Args[0] == apps[j].Args[0] {
+				continue
+			}
+			out = append(out, Implies(mk("=", BoolS, apps[i], apps[j]), Eq(apps[i].Args[0], apps[j].Args[0])))
+		}
+	}
+	return out
+}
